@@ -21,6 +21,9 @@ pub fn status_u8(s: Status) -> u8 {
         Status::Filled => 2,
         Status::Cancelled => 3,
         Status::Rejected => 4,
+        // a status this harness does not know (added by the tree under test): reported as-is, never equal to a documented code
+        #[allow(unreachable_patterns)]
+        _ => 250,
     }
 }
 
